@@ -871,9 +871,9 @@ def parts(tier):
         Part("text_name", run_text_name, strategy=text_name_cases(), n=mk(5000, 200000),
              require={"parsed": 1000}, shards={"quick": 4, "thorough": 8}),
         Part("text_rdata", run_text_rdata, strategy=text_rdata_cases(), n=mk(10000, 500000),
-             require={"parsed": 700}, shards={"quick": 8, "thorough": 16}),
+             require={"parsed": 450}, shards={"quick": 8, "thorough": 16}),
         Part("text_zone", run_text_zone, strategy=text_zone_cases(), n=mk(5000, 300000),
-             require={"parsed": 300, "located": 500}, shards={"quick": 8, "thorough": 16}),
+             require={"parsed": 150, "located": 500}, shards={"quick": 8, "thorough": 16}),
         Part("read_rrsets", run_read_rrsets, strategy=read_rrsets_cases(), n=mk(3000, 150000),
              require={"parsed": 100}, shards={"quick": 4, "thorough": 8}),
         Part("text_message", run_text_message, strategy=text_message_cases(), n=mk(3000, 150000),
